@@ -194,8 +194,22 @@ func runScenario(id, valspec, cmdspec, schedspec string, settle time.Duration) s
 			time.Sleep(settle / 6)
 		}
 	}
+	// real-time order of the history: the grant at which a thread was first released (its invocation) and the grant after
+	// which it was first seen finished (its response)
+	firstGrant := make([]int, len(threads))
+	doneAt := make([]int, len(threads))
+	for i := range firstGrant {
+		firstGrant[i], doneAt[i] = -1, -1
+	}
+	noteDone := func(gi int) {
+		for i, t := range threads {
+			if doneAt[i] < 0 && get(t) == "done" {
+				doneAt[i] = gi
+			}
+		}
+	}
 	if schedspec != "-" {
-		for _, ts := range strings.Split(schedspec, ",") {
+		for gi, ts := range strings.Split(schedspec, ",") {
 			ti, _ := strconv.Atoi(ts)
 			if ti < 0 || ti >= len(threads) {
 				continue
@@ -208,12 +222,16 @@ func runScenario(id, valspec, cmdspec, schedspec string, settle time.Duration) s
 			for len(t.arrived) > 0 {
 				<-t.arrived
 			}
+			if firstGrant[ti] < 0 {
+				firstGrant[ti] = gi
+			}
 			t.grant <- struct{}{}
 			select {
 			case <-t.arrived:
 			case <-time.After(settle):
 			}
 			quiesce()
+			noteDone(gi)
 		}
 	}
 	quiesce()
@@ -291,7 +309,11 @@ func runScenario(id, valspec, cmdspec, schedspec string, settle time.Duration) s
 		}
 		stored = " stored=" + j(st)
 	}
-	return fmt.Sprintf("OUT %s vals=%s replies=%s waiting=%s notdone=%s%s", id, j(vals), j(replies), j(waiting), j(notdone), stored)
+	var rt []string
+	for i := range threads {
+		rt = append(rt, fmt.Sprintf("%d:%d:%d", i, firstGrant[i], doneAt[i]))
+	}
+	return fmt.Sprintf("OUT %s vals=%s replies=%s waiting=%s notdone=%s%s rt=%s", id, j(vals), j(replies), j(waiting), j(notdone), stored, j(rt))
 }
 
 func concMain(args []string) {
